@@ -263,6 +263,15 @@ def make_ops(rnd, env):
 
         return draw
 
+    def nested_draw():
+        # a renderable that, while being rendered, draws another one (a caption, a header)
+        from ..subjects import SubjSGR
+
+        outer, inner = SubjSGR(1, 1, (2, 1), "text"), SubjSGR(1, 1, (3, 1), "text")
+        outer.on_render = lambda: inner.draw(echo_input=False, check_size=False)
+        outer.draw(echo_input=False, check_size=False)
+
+    ops.append(("draw/nested", nested_draw, None, None))
     for animated in (False, True):
         for hc in (True, False):
             ops.append(("draw/%s%s" % ("animated" if animated else "still", "" if hc else "/cursor-not-hidden"), make_draw(animated, hc), None, None))
